@@ -360,6 +360,14 @@ var (
 		m.AddFunc(nil, []wasmb.ValType{wasmb.I32}, nil, c.B, "one")
 		return m.Encode()
 	}()
+	// binBT: a memory and an exported table (instantiation records the instance with the table) and NO
+	// other export: wazero walks the exports in map order, and every statement of that loop is a yield point
+	binBT = func() []byte {
+		m := &wasmb.Module{Mem: &wasmb.Limits{Min: 1}}
+		m.Tables = []wasmb.Table{{Elem: wasmb.FuncRef, Lim: wasmb.Limits{Min: 2}}}
+		m.Exports = append(m.Exports, wasmb.Export{Name: "tab", Kind: wasmb.KindTable, Idx: 0})
+		return m.Encode()
+	}()
 	binB = func() []byte {
 		m := &wasmb.Module{Mem: &wasmb.Limits{Min: 1}}
 		c := &wasmb.Code{}
@@ -679,6 +687,9 @@ func (c10) Run(t *tape.Tape, cfg sim.Config) (res sim.Result) {
 	rt := wazero.NewRuntimeWithConfig(ctx, rc)
 	defer rt.Close(ctx)
 	bins := [][]byte{binA, binB, binC}
+	if cfg.Class == "registry" {
+		bins[1] = binBT
+	}
 	lctx := experimental.WithFunctionListenerFactory(ctx, experimental.FunctionListenerFactoryFunc(func(api.FunctionDefinition) experimental.FunctionListener {
 		return nopListener{}
 	}))
